@@ -419,7 +419,45 @@ def load_findings():
 # main check
 # ---------------------------------------------------------------------------
 
+QUICK_UNIT_MAX_S = 150      # an obligation measured slower than this (on a loaded 16-core box) is thorough-only
+QUICK_BUDGET_CPU_S = 3000   # summed measured time of a property's quick tier (~5 min wall at -j 12)
+
+
+def measured_times():
+    p = os.path.join(CONTRACTS, "measured_times.json")
+    try:
+        return json.load(open(p))
+    except Exception:
+        return {}
+
+
 def select_units(cat, prop, tier, only=None):
+    us = _select_units(cat, prop, tier, only)
+    if tier != "quick" or only or os.environ.get("VERIF_NO_TIME_FILTER"):
+        return us
+    # quick tier = the obligations that are known (measured) to be cheap, most important first,
+    # within a CPU budget; everything else of the property runs in the thorough tier
+    times = measured_times()
+    keep, rest = [], []
+    for u in us:
+        t = times.get(u["name"])
+        if u.get("expect") == "fail" or u["engine"] != "kani" or u.get("core"):
+            keep.append(u)
+        elif t is not None and t <= QUICK_UNIT_MAX_S:
+            rest.append((0 if u.get("core") else 1, t, u))
+    rest.sort(key=lambda x: (x[0], x[1]))
+    spent = 0.0
+    for pr, t, u in rest:
+        if spent + t > QUICK_BUDGET_CPU_S and pr != 0:
+            continue
+        keep.append(u)
+        spent += t
+    order = {u["name"]: i for i, u in enumerate(us)}
+    keep.sort(key=lambda u: order[u["name"]])
+    return keep
+
+
+def _select_units(cat, prop, tier, only=None):
     us = []
     for u in cat.UNITS:
         t = u["props"].get(prop)
@@ -484,6 +522,12 @@ def check(prop, tier, only=None, keep=False):
             timeout = max(u.get("timeout", 600) for u in kani_units)
             if tier == "thorough":
                 timeout = max(timeout, 3600)
+            else:
+                # the quick tier only holds obligations measured well below this; a harness that
+                # needs longer on this machine is reported undecided instead of blocking the run
+                timeout = min(timeout, 600)
+            if os.environ.get("VERIF_HARNESS_TIMEOUT"):
+                timeout = int(os.environ["VERIF_HARNESS_TIMEOUT"])
             groups = sorted({(cat.MODULES[u["module"]]["pkg"], u.get("features", "")) for u in kani_units})
             for pkg, feats in groups:
                 pu = [u for u in kani_units if cat.MODULES[u["module"]]["pkg"] == pkg and u.get("features", "") == feats]
